@@ -68,7 +68,7 @@ ASSUMPTIONS = ['IEEE rounding is not modelled: permuting filters changes the ord
                'or a copy is not part of the property']
 EXHAUSTIVE = {'quick': False, 'thorough': True}
 N = {'quick': dict(filter_perm=24, model_perm=24, scale=30, history=24, interleaved=12),
-     'thorough': dict(filter_perm=1800, model_perm=1800, scale=3000, history=1800)}
+     'thorough': dict(filter_perm=1800, model_perm=1800, scale=3000, history=1800, interleaved=600)}
 FLAGS = [0, 1, 2, 3, 4, 9]
 
 
